@@ -78,4 +78,7 @@ PROPS["C05"] = dict(jobs=None, obl=None, bounded="c05", level="other", design="4
 PROPS["C06"] = dict(jobs=None, obl=None, bounded="c06", level="other", design="4 C05/C06",
                     technique="bounded stand-in: first-hour simulation vs really applying the changes on a twin system; no simulated hour before the date; twins paired both ways; bad dates refused")
 
+PROPS["C08"] = dict(jobs=ANY, obl=lambda o: any(x in o["name"] for x in ("recorded ancestors", "_parent recorded")), bounded="c08", level="other", design="4 C08",
+                    technique="P: every operator / helper contract pins the parents recorded on its result and the recorded-ancestor set (what the dependency edges are built from); B: graph consistency (both ends, held values only, acyclic) as built / after edits / after simulations and toggles; completeness by perturbing every quantity input and rebuilding; update order of every input")
+
 NOT_BUILT = {}
